@@ -392,6 +392,82 @@ def gen_case(rng: Rng, depth: int) -> dict:
     return case
 
 
+# ---------------------------------------------------------------- family: one short class name in several modules
+CLASH_MODULES = [(), ("a",), ("b",), ("a", "b"), ("c", "d")]
+
+
+def clash_layouts() -> list[tuple]:
+    """(T, L, U): T defines the class N that L imports; L may define a class N of its own; U refers to L's class"""
+    # three different modules: U = T would make T and L refer to each other (an import cycle, not a C12 matter)
+    return [(t, l, u) for t in CLASH_MODULES for l in CLASH_MODULES for u in CLASH_MODULES if len({t, l, u}) == 3]
+
+
+def is_prefix(a: tuple, b: tuple) -> bool:
+    return b[: len(a)] == a
+
+
+def clash_meets_exact_ancestor(layout: tuple, variant: dict, opts: dict) -> bool:
+    """the trigger of the recorded finding C12-exact-ancestor: an exact-form import (base class, or any member
+    under --use-exact-imports) of a class that lives in an ancestor package of the importer"""
+    t, l, u = layout
+    exact = bool(opts.get("use_exact_imports"))
+    return ((exact or variant.get("base")) and is_prefix(t, l)) or (exact and (is_prefix(l, u) or (variant.get("both") and is_prefix(t, u))))
+
+
+def clash_case(layout: tuple, variant: dict, order: list[int] | None, opts: dict, model: str) -> dict:
+    """T.N; L.J uses T.N (member or base class); L.N (same short name, optional); L.S uses L.N (optional);
+    U.R uses L's class — and T.N too (optional); U.N (a third class of that name, optional).
+    `order`: a permutation of the definitions (document order = the order the generator meets the models in)."""
+    t, l, u = layout
+    n = variant.get("name", "Shared")
+    tn, lj = dotted((*t, n)), dotted((*l, "J"))
+    items: list[tuple[str, list[str]]] = [(tn, []), (lj, [] if variant.get("base") else [tn])]
+    bases = {lj: tn} if variant.get("base") else {}
+    local = dotted((*l, n)) if variant.get("local", True) else lj
+    if variant.get("local", True):
+        items.append((local, []))
+    if variant.get("sibling"):
+        items.append((dotted((*l, "S")), [local]))
+    items.append((dotted((*u, "R")), [local] + ([tn] if variant.get("both") and u != t else [])))
+    if variant.get("third") and u != t:
+        items.append((dotted((*u, n)), []))
+    if order is not None:
+        items = [items[i % len(items)] for i in order if i < len(items)]
+        assert len({k for k, _ in items}) == len(items)
+    return {"defs": dict(items), "bases": bases, "opts": dict(opts), "model": model}
+
+
+CLASH_VARIANTS = [
+    {"local": loc, "base": base, "sibling": sib, "both": both, "third": third}
+    for loc in (True, False) for base in (False, True) for sib in (False, True) for both in (False, True) for third in (False, True)
+]
+
+
+def gen_clash_case(rng: Rng) -> dict:
+    for _ in range(8):
+        layout = rng.choice(clash_layouts())
+        variant = dict(rng.choice(CLASH_VARIANTS))
+        if rng.chance(3, 4):
+            variant["local"] = True
+        opts = rng.choice([{}, {}, {"use_exact_imports": True}, {"treat_dot_as_module": True}])
+        if not clash_meets_exact_ancestor(layout, variant, opts) or rng.chance(1, 8):
+            break  # mostly outside the trigger of the recorded exact/ancestor finding, which fails before any use is reached
+    probe = clash_case(layout, variant, None, {}, "pydantic_v2.BaseModel")
+    order = rng.shuffle(list(range(len(probe["defs"]))))
+    model = rng.choice(["pydantic_v2.BaseModel"] * 4 + ["pydantic.BaseModel", "dataclasses.dataclass", "typing.TypedDict"])
+    return clash_case(layout, variant, order, opts, model)
+
+
+def clash_sweep():
+    """small scope, exhaustively: every layout x {member, base class} x {default, exact imports} x ALL orders of
+    the four definitions T.N, L.J, L.N, U.R"""
+    for layout in clash_layouts():
+        for base in (False, True):
+            for opts in ({}, {"use_exact_imports": True}):
+                for order in itertools.permutations(range(4)):
+                    yield clash_case(layout, {"base": base}, list(order), opts, "pydantic_v2.BaseModel")
+
+
 # ---------------------------------------------------------------- end-to-end: the property's own oracle
 def file_module(rel: str) -> tuple[tuple, bool]:
     parts = rel.split("/")
@@ -810,6 +886,8 @@ def classify(fail: dict, case: dict, pred: dict | None, files: dict[str, str]) -
             return {**base, "mechanism": "alias_clash_same_import"}
     if fail.get("attr_shadow"):
         return {**base, "mechanism": "init_name_shadows_submodule"}
+    if fail["check"] == "use_reaches_definition" and importer in relative_key_collisions(case):
+        return {**base, "mechanism": "relative_key_collision"}
     mechs = set()
     for e in pred["preds"].get(importer, []):
         lvl, pkg, name = e["import"]
@@ -898,7 +976,7 @@ def check_case(ck: Check, camp, case: dict, pending: list, correspond: bool = Tr
     mechs = []
     for f in fails:
         cl = classify(f, case, pred, files)
-        mechs.append(cl["mechanism"])
+        mechs.append((f.get("file", ""), cl["mechanism"]))
         ck.fail(cl, case, f"{f['file']}: {f['detail']}")
     pending.append((case, files, pred, sorted(set(mechs))))
     if len(camp.samples) < 3 and not fails:
@@ -933,6 +1011,25 @@ def correspondence(ck: Check, camp, case: dict, files: dict[str, str], pred: dic
 REACH_INHERITS = ("init_name_shadows_submodule", "init_body_copied")
 
 
+def relative_key_collisions(case: dict) -> set[tuple]:
+    """Trigger of the recorded finding C12-relkey-collision, stated on the input: importers m that refer to
+    classes of BOTH m + s (a module below the package m) and m[:-1] + s (the like-named module beside m).
+    `relative(m, ·)` answers both with one and the same (from, import) pair — the pair is the key under which
+    the scoped resolver hands out the import's name, so the two imports share one name."""
+    if "defs" not in case:
+        return set()
+    targets: dict[tuple, set[tuple]] = {}
+    for nm, refs in case["defs"].items():
+        for r in list(refs) + ([case["bases"][nm]] if nm in case["bases"] else []):
+            if mod_of(r) != mod_of(nm):
+                targets.setdefault(mod_of(nm), set()).add(mod_of(r))
+    out = set()
+    for m, ts in targets.items():
+        if m and any(t[: len(m)] == m and len(t) > len(m) and (m[:-1] + t[len(m):]) in ts for t in ts):
+            out.add(m)
+    return out
+
+
 def flush_imports(ck: Check, camp, pending: list) -> None:
     """oracles (4) and (5) for all queued packages in one fresh interpreter"""
     if not pending:
@@ -958,16 +1055,25 @@ def flush_imports(ck: Check, camp, pending: list) -> None:
         if circ:  # an ordering problem between modules that import each other's names (C02), not a resolution problem
             camp.hit("circular_import_not_C12", len(circ))
             errs = {m: e for m, e in errs.items() if m not in circ}
+        def mechs_of(module: str) -> list[str]:
+            """mechanisms of the static failures of that module's own file; of the whole package when it has none
+            (a module also fails to import when a module it imports is broken)"""
+            path = undot(module.split(".", 1)[1] if "." in module else "")
+            own = sorted({mc for f, mc in mechs if f.endswith(".py") and file_module(f)[0] == path})
+            return own or sorted({mc for _, mc in mechs})
+
         if errs:
             m, e = sorted(errs.items())[0]
-            mech = mechs[0] if mechs else "runtime_only"
+            mech = (mechs_of(m) or ["runtime_only"])[0]
             camp.hit(f"import_failed:{mech}")
             ck.fail({"oracle": "import_subprocess", "input_kind": kind, "mechanism": mech}, case,
                     f"importing {m.split('.', 1)[-1] if '.' in m else '<root>'} in a fresh interpreter: {e}")
         # (5): the class reached is not the class of the referenced definition. It is a consequence of a recorded
         # defect only where that defect is about a name bound to another module's object.
         for m, texts in sorted(r["reach"].items()):
-            inherited = [x for x in mechs if x in REACH_INHERITS]
+            inherited = [x for x in mechs_of(m) if x in REACH_INHERITS]
+            if undot(m.split(".", 1)[1] if "." in m else "") in relative_key_collisions(case):
+                inherited.append("relative_key_collision")
             mech = inherited[0] if inherited else "wrong_class_reached"
             camp.hit(f"reach_failed:{mech}")
             ck.fail({"oracle": "use_reaches_target", "input_kind": kind, "mechanism": mech}, case,
@@ -1027,7 +1133,7 @@ def gen_tree(rng: Rng) -> dict:
     return {"files": files, "opts": dict(rng.choice([{}, {}, {"use_exact_imports": True}, {"treat_dot_as_module": True}])), "model": "pydantic_v2.BaseModel"}
 
 
-def campaign_e2e(ck: Check, n: int, n_tree: int, depth: int) -> None:
+def campaign_e2e(ck: Check, n: int, n_tree: int, depth: int, n_clash: int = 0) -> None:
     camp = ck.campaign("e2e: dotted definition names -> real generate(); file map + import lines vs model; oracles (1)-(4)")
     t0 = time.time()
     rng = ck.rng.fork("e2e")
@@ -1036,6 +1142,11 @@ def campaign_e2e(ck: Check, n: int, n_tree: int, depth: int) -> None:
         check_case(ck, camp, case, pending)
     for _ in range(n):
         check_case(ck, camp, gen_case(rng, depth), pending)
+    # the family "one short class name in several modules, referred to across modules, in every definition order"
+    rng_c = ck.rng.fork("clash")
+    for _ in range(n_clash):
+        camp.hit("family:same_short_name")
+        check_case(ck, camp, gen_clash_case(rng_c), pending)
     flush_imports(ck, camp, pending)
     camp.wall_s = time.time() - t0
     camp2 = ck.campaign("e2e: input file trees (several files, references by path); oracles (1)-(4), no file-map model")
@@ -1101,7 +1212,7 @@ def run(ck: Check) -> None:
     campaign_resolve(ck, 3 if quick else 4)
     campaign_relative(ck, 3 if quick else 4, 300 if quick else 3000)
     campaign_module_path(ck, 400 if quick else 4000)
-    campaign_e2e(ck, 200 if quick else 3000, 30 if quick else 400, 3 if quick else 4)
+    campaign_e2e(ck, 200 if quick else 3000, 30 if quick else 400, 3 if quick else 4, n_clash=120 if quick else 1500)
     ck.search_hooks.append(search_from_disagreements)
     known_findings(ck)
 
